@@ -100,6 +100,29 @@ class Scratch:
             raise Inconclusive("native driver answered %d of %d requests" % (len(out), len(inputs)))
         return out
 
+    def run_native_trees(self, sexprs, profile="debug", mdt=None):
+        """tree requests (see native/verif_driver.rs): list of s-expression strings -> list of dict"""
+        exe = self.native(profile)
+        lines = []
+        for s in sexprs:
+            l = "T x" + s.encode("utf-8").hex()
+            if mdt is not None:
+                l += " x" + mdt.encode("utf-8").hex()
+            lines.append(l)
+        r = subprocess.run([exe], input="\n".join(lines) + "\n", capture_output=True, text=True, timeout=600)
+        if r.returncode != 0:
+            raise Inconclusive("native driver crashed: rc=%s %s" % (r.returncode, r.stderr[-2000:]))
+        out = []
+        for line in r.stdout.splitlines():
+            d = {}
+            for kv in line.split():
+                k, _, v = kv.partition("=")
+                d[k] = bytes.fromhex(v).decode("utf-8", "replace")
+            out.append(d)
+        if len(out) != len(sexprs):
+            raise Inconclusive("native driver answered %d of %d tree requests" % (len(out), len(sexprs)))
+        return out
+
     # ---------------------------------------------------------------- MIR dumps
     def mir(self, profile="dev"):
         """profile: dev (debug-assertions+overflow-checks on) | rel (both off)."""
